@@ -233,4 +233,264 @@ theorem lookup_spec (text : List Byte) (ix : Index) (a : Nat)
                 intro r hr; subst hr; exact ⟨hxa, by simp⟩
         · simp
 
+/-! ### when are the memo tables observable?
+
+They are keyed by the file offset alone. If, among the symbol entries of the index, kind and offset determine
+the length (true of every index the creator writes: one entry per line / block start), a sequence of lookups
+on one map answers exactly what C10's memo-free `BP.lookup` answers for each address. -/
+
+/-- a string memo table holds only what `get_string` computes -/
+def MemoOk (p : List Byte → Option (Nat × List Byte)) (text : List Byte) (items : List FEntry) (memo : Memo) : Prop :=
+  ∀ k v, memo.lookup k = some v → getString p text items k = some v
+
+theorem lookup_cons_some {β : Type} (k k' : Nat) (v v' : β) (l : List (Nat × β))
+    (h : ((k', v') :: l).lookup k = some v) : (k = k' ∧ v = v') ∨ l.lookup k = some v := by
+  simp only [List.lookup] at h
+  split at h
+  · rename_i heq
+    left
+    exact ⟨by simpa using heq, by cases h; rfl⟩
+  · right; exact h
+
+theorem getStringC_ok (p : List Byte → Option (Nat × List Byte)) (text : List Byte) (items : List FEntry)
+    (memo : Memo) (idx : Nat) (h : MemoOk p text items memo) :
+    (getStringC p text items memo idx).1 = getString p text items idx ∧
+    MemoOk p text items (getStringC p text items memo idx).2 := by
+  unfold getStringC
+  cases hm : memo.lookup idx with
+  | some s => exact ⟨(h idx s hm).symm, h⟩
+  | none =>
+    cases hg : getString p text items idx with
+    | none => exact ⟨rfl, h⟩
+    | some s =>
+      refine ⟨rfl, ?_⟩
+      intro k v hk
+      rcases lookup_cons_some k idx v s memo hk with ⟨rfl, rfl⟩ | hk'
+      · exact hg
+      · exact h k v hk'
+
+theorem inlineFramesC_eq (text : List Byte) (ix : Index) (info : FuncInfo) (addr : Nat)
+    (fuel depth : Nat) (name : Option (List Byte)) (acc : List Frame) (fm om : Memo)
+    (hf : MemoOk fileLine text ix.files fm) (ho : MemoOk inlineOriginLine text ix.origins om) :
+    ((inlineFramesC text ix info addr fuel depth name acc fm om).1,
+      (inlineFramesC text ix info addr fuel depth name acc fm om).2.1)
+        = inlineFrames text ix info addr fuel depth name acc ∧
+    MemoOk fileLine text ix.files (inlineFramesC text ix info addr fuel depth name acc fm om).2.2.1 ∧
+    MemoOk inlineOriginLine text ix.origins (inlineFramesC text ix info addr fuel depth name acc fm om).2.2.2 := by
+  induction fuel generalizing depth name acc fm om with
+  | zero => exact ⟨rfl, hf, ho⟩
+  | succ fuel ih =>
+    simp only [inlineFramesC, inlineFrames]
+    cases hi : inlineeAt info.inlinees depth addr with
+    | none => exact ⟨rfl, hf, ho⟩
+    | some i =>
+      simp only
+      obtain ⟨f1, f2⟩ := getStringC_ok fileLine text ix.files fm i.callFile hf
+      obtain ⟨o1, o2⟩ := getStringC_ok inlineOriginLine text ix.origins om i.originId ho
+      have := ih (depth + 1) (getStringC inlineOriginLine text ix.origins om i.originId).1
+        (acc ++ [⟨name, (getStringC fileLine text ix.files fm i.callFile).1, some i.callLine⟩])
+        (getStringC fileLine text ix.files fm i.callFile).2
+        (getStringC inlineOriginLine text ix.origins om i.originId).2 f2 o2
+      rw [← f1, ← o1]
+      exact this
+
+/-- kind and offset of a symbol entry determine its length -/
+def Det (ix : Index) : Prop :=
+  ∀ e ∈ ix.entries, ∀ e' ∈ ix.entries, e.kind = e'.kind → e.offset = e'.offset → e.len = e'.len
+
+def PubOk (text : List Byte) (ix : Index) (memo : Memo) : Prop :=
+  ∀ off n, memo.lookup off = some n → ∀ e ∈ ix.entries, e.kind = 0 → e.offset = off →
+    (readAt text e.offset e.len).bind parsePublic = some n
+
+def FuncOk (text : List Byte) (ix : Index) (memo : List (Nat × FuncInfo)) : Prop :=
+  ∀ off i, memo.lookup off = some i → ∀ e ∈ ix.entries, e.kind = 1 → e.offset = off →
+    (readAt text e.offset e.len).bind parseFunc = some i
+
+structure CacheOk (text : List Byte) (ix : Index) (c : Cache) : Prop where
+  files : MemoOk fileLine text ix.files c.files
+  origins : MemoOk inlineOriginLine text ix.origins c.origins
+  pubs : PubOk text ix c.pubs
+  funcs : FuncOk text ix c.funcs
+
+theorem cacheOk_empty (text : List Byte) (ix : Index) : CacheOk text ix Cache.empty :=
+  ⟨fun _ _ h => by simp [Cache.empty] at h, fun _ _ h => by simp [Cache.empty] at h,
+   fun _ _ h => by simp [Cache.empty] at h, fun _ _ h => by simp [Cache.empty] at h⟩
+
+theorem publicInfoC_ok (text : List Byte) (ix : Index) (memo : Memo) (e : SymEntry) (he : e ∈ ix.entries)
+    (hk : e.kind = 0) (hdet : Det ix) (h : PubOk text ix memo) :
+    (publicInfoC text memo e.offset e.len).1 = (readAt text e.offset e.len).bind parsePublic ∧
+    PubOk text ix (publicInfoC text memo e.offset e.len).2 := by
+  unfold publicInfoC
+  cases hm : memo.lookup e.offset with
+  | some n => exact ⟨(h e.offset n hm e he hk rfl).symm, h⟩
+  | none =>
+    cases hg : (readAt text e.offset e.len).bind parsePublic with
+    | none => exact ⟨rfl, h⟩
+    | some n =>
+      refine ⟨rfl, ?_⟩
+      intro off n' hl e' he' hk' ho'
+      rcases lookup_cons_some off e.offset n' n memo hl with ⟨rfl, rfl⟩ | hl'
+      · have := hdet e' he' e he (by rw [hk, hk']) ho'
+        rw [ho', this]; exact hg
+      · exact h off n' hl' e' he' hk' ho'
+
+theorem funcInfoC_ok (text : List Byte) (ix : Index) (memo : List (Nat × FuncInfo)) (e : SymEntry)
+    (he : e ∈ ix.entries) (hk : e.kind = 1) (hdet : Det ix) (h : FuncOk text ix memo) :
+    (funcInfoC text memo e.offset e.len).1 = (readAt text e.offset e.len).bind parseFunc ∧
+    FuncOk text ix (funcInfoC text memo e.offset e.len).2 := by
+  unfold funcInfoC
+  cases hm : memo.lookup e.offset with
+  | some n => exact ⟨(h e.offset n hm e he hk rfl).symm, h⟩
+  | none =>
+    cases hg : (readAt text e.offset e.len).bind parseFunc with
+    | none => exact ⟨rfl, h⟩
+    | some n =>
+      refine ⟨rfl, ?_⟩
+      intro off n' hl e' he' hk' ho'
+      rcases lookup_cons_some off e.offset n' n memo hl with ⟨rfl, rfl⟩ | hl'
+      · have := hdet e' he' e he (by rw [hk, hk']) ho'
+        rw [ho', this]; exact hg
+      · exact h off n' hl' e' he' hk' ho'
+
+/-- the `match kind { … }` of `lookup_sync` without memo tables (the tail of `BP.lookup`) -/
+def resolveSpec (text : List Byte) (ix : Index) (a symAddr : Nat) (next : Option Nat) (e : SymEntry) :
+    Option LookupResult :=
+  if e.kind = 0 then
+    match (readAt text e.offset e.len).bind parsePublic with
+    | none => none
+    | some name =>
+      some ⟨symAddr, next.bind (fun nx => if symAddr ≤ nx then some (nx - symAddr) else none), name, none⟩
+  else if e.kind = 1 then
+    match (readAt text e.offset e.len).bind parseFunc with
+    | none => none
+    | some info =>
+      if symAddr + info.size ≤ a then none
+      else
+        let p := inlineFrames text ix info a (info.inlinees.length + 1) 0 (some info.name) []
+        let last : Frame :=
+          match sourceLoc info.lines a with
+          | some sl => ⟨p.2, getString fileLine text ix.files sl.file, some sl.line⟩
+          | none => ⟨p.2, none, none⟩
+        some ⟨symAddr, some info.size, info.name, some ((p.1 ++ [last]).reverse)⟩
+  else none
+
+theorem lookup_eq_spec (text : List Byte) (ix : Index) (a : Nat) :
+    lookup text ix a =
+      match bsearchLE (fun x => a < x) ix.addrs with
+      | none => Look.none
+      | some i =>
+        match ix.addrs[i]? with
+        | none => Look.none
+        | some symAddr =>
+          match ix.entries[i]? with
+          | none => Look.panic
+          | some e =>
+            match resolveSpec text ix a symAddr ix.addrs[i + 1]? e with
+            | none => Look.none
+            | some r => Look.found r := by
+  unfold lookup
+  cases bsearchLE (fun x => decide (a < x)) ix.addrs with
+  | none => rfl
+  | some i =>
+    simp only
+    cases ix.addrs[i]? with
+    | none => rfl
+    | some symAddr =>
+      simp only
+      cases ix.entries[i]? with
+      | none => rfl
+      | some e =>
+        simp only
+        unfold resolveSpec
+        by_cases h0 : e.kind = 0
+        · simp only [h0, if_true]
+          cases readAt text e.offset e.len with
+          | none => rfl
+          | some line =>
+            simp only [Option.bind]
+            cases parsePublic line <;> rfl
+        · by_cases h1 : e.kind = 1
+          · simp only [h1, (by decide : ((1 : Nat) = 0) = False), if_true, if_false]
+            cases readAt text e.offset e.len with
+            | none => rfl
+            | some block =>
+              simp only [Option.bind]
+              cases parseFunc block with
+              | none => rfl
+              | some info =>
+                simp only
+                split
+                · rfl
+                · cases sourceLoc info.lines a <;> rfl
+          · simp only [h0, h1, if_false]
+
+theorem resolveC_eq (text : List Byte) (ix : Index) (c : Cache) (a symAddr : Nat) (next : Option Nat)
+    (e : SymEntry) (he : e ∈ ix.entries) (hdet : Det ix) (hc : CacheOk text ix c) :
+    (resolveC text ix c a symAddr next e).1 = resolveSpec text ix a symAddr next e ∧
+    CacheOk text ix (resolveC text ix c a symAddr next e).2 := by
+  unfold resolveC resolveSpec
+  by_cases h0 : e.kind = 0
+  · simp only [h0, if_true]
+    obtain ⟨p1, p2⟩ := publicInfoC_ok text ix c.pubs e he h0 hdet hc.pubs
+    rw [← p1]
+    cases (publicInfoC text c.pubs e.offset e.len).1 with
+    | none => exact ⟨rfl, ⟨hc.files, hc.origins, p2, hc.funcs⟩⟩
+    | some name => exact ⟨rfl, ⟨hc.files, hc.origins, p2, hc.funcs⟩⟩
+  · by_cases h1 : e.kind = 1
+    · simp only [h1, (by decide : ((1 : Nat) = 0) = False), if_true, if_false]
+      obtain ⟨p1, p2⟩ := funcInfoC_ok text ix c.funcs e he h1 hdet hc.funcs
+      rw [← p1]
+      cases (funcInfoC text c.funcs e.offset e.len).1 with
+      | none => exact ⟨rfl, ⟨hc.files, hc.origins, hc.pubs, p2⟩⟩
+      | some info =>
+        simp only
+        split
+        · exact ⟨rfl, ⟨hc.files, hc.origins, hc.pubs, p2⟩⟩
+        · obtain ⟨q1, q2, q3⟩ := inlineFramesC_eq text ix info a (info.inlinees.length + 1) 0 (some info.name) []
+            c.files c.origins hc.files hc.origins
+          have q1a := congrArg Prod.fst q1
+          have q1b := congrArg Prod.snd q1
+          simp only at q1a q1b
+          cases hs : sourceLoc info.lines a with
+          | none =>
+            simp only
+            rw [q1a, q1b]
+            exact ⟨rfl, ⟨q2, q3, hc.pubs, p2⟩⟩
+          | some sl =>
+            simp only
+            obtain ⟨g1, g2⟩ := getStringC_ok fileLine text ix.files _ sl.file q2
+            rw [q1a, q1b, g1]
+            exact ⟨rfl, ⟨g2, q3, hc.pubs, p2⟩⟩
+    · rw [if_neg h0, if_neg h1, if_neg h0, if_neg h1]
+      exact ⟨rfl, hc⟩
+
+theorem lookupC_eq (text : List Byte) (ix : Index) (c : Cache) (a : Nat) (hdet : Det ix)
+    (hc : CacheOk text ix c) :
+    (lookupC text ix c a).1 = lookup text ix a ∧ CacheOk text ix (lookupC text ix c a).2 := by
+  rw [lookup_eq_spec]
+  unfold lookupC
+  cases hb : bsearchLE (fun x => a < x) ix.addrs with
+  | none => exact ⟨rfl, hc⟩
+  | some i =>
+    obtain ⟨x, hx, _⟩ := bsearchLE_spec _ _ _ hb
+    simp only [hx]
+    cases he : ix.entries[i]? with
+    | none => exact ⟨rfl, hc⟩
+    | some e =>
+      simp only
+      have hmem : e ∈ ix.entries := List.mem_of_getElem? he
+      obtain ⟨r1, r2⟩ := resolveC_eq text ix c a x ix.addrs[i + 1]? e hmem hdet hc
+      rw [← r1]
+      cases (resolveC text ix c a x ix.addrs[i + 1]? e).1 <;> exact ⟨rfl, r2⟩
+
+theorem lookupSeq_eq (text : List Byte) (ix : Index) (c : Cache) (addrs : List Nat) (hdet : Det ix)
+    (hc : CacheOk text ix c) : lookupSeq text ix c addrs = addrs.map (lookup text ix) := by
+  induction addrs generalizing c with
+  | nil => simp [lookupSeq, lookupSeqC]
+  | cons a rest ih =>
+    obtain ⟨h1, h2⟩ := lookupC_eq text ix c a hdet hc
+    have := ih (lookupC text ix c a).2 h2
+    simp only [lookupSeq] at this
+    simp [lookupSeq, lookupSeqC, h1, this]
+
 end BPC
